@@ -835,8 +835,12 @@ analyze_function(CallGraphNode cg_node,
       CRAB_VERBOSE_IF(1, get_msg_stream()
                              << "++ Fixpoint reached for recursive function "
                              << cfg.get_func_decl().get_func_name() << "!\n";);
-      // Don't check invariants with the last iteration
-      return nullptr;
+      if (iteration > 0) {
+        // Don't check invariants with the last iteration
+        return nullptr;
+      }
+      // The fixpoint converged in the first iteration (e.g., the
+      // function never returns): its invariants are the final ones.
     } else {
       CRAB_VERBOSE_IF(1, get_msg_stream()
                              << "++ Widening " << iteration
